@@ -104,6 +104,7 @@ static void do_fork(Kernel *k, Thread *t) {
   c->child_phase = true;
   t->child = c;
   t->fork_ret = 0;
+  t->tsan_prev_fiber = coro_tsan_child_fiber_begin(t->co);
 }
 
 static void end_child_phase(Kernel *k, Thread *t) {
@@ -122,6 +123,8 @@ static void end_child_phase(Kernel *k, Thread *t) {
   c->child_phase = false;
   t->child = nullptr;
   t->fork_ret = c->pid;
+  coro_tsan_child_fiber_end(t->co, t->tsan_prev_fiber);
+  t->tsan_sync_resume = true;
 }
 
 static void run_thread(Kernel *k, Thread *t) {
@@ -129,12 +132,14 @@ static void run_thread(Kernel *k, Thread *t) {
   t->st = Thread::READY;
   int saved_errno_at_fork = 0;
   for (;;) {
+    if (t->tsan_sync_resume) { coro_tsan_sync_next_switch(true); t->tsan_sync_resume = false; }
     coro_resume(t->co);
     if (t->co->done) { t->st = Thread::DONE; break; }
     if (t->st == Thread::FORKREQ) {
       saved_errno_at_fork = t->co->saved_errno;
       do_fork(k, t);
       t->st = Thread::READY;
+      t->tsan_sync_resume = true;
       continue;  // child phase runs atomically
     }
     if (t->st == Thread::CHILDEND) {
@@ -430,6 +435,7 @@ void child_phase_end_forkmode() {
   if (K->hooks) K->hooks->on_fork_child_done(t, c);
   K->logrec(K_kern, 3 /* fork-mode child continues as script */, c->pid, 0, 0, 0);
   t->st = Thread::CHILDEND;
+  coro_tsan_ignore(false);
   coro_abandon();
 }
 
